@@ -1,15 +1,47 @@
 use crate::runner::{Ctx, Tier};
 use serde_json::Value;
 
+pub mod c01;
 pub mod c13;
 pub mod c14;
 
 /// Properties served by the `vcheck` binary.
-pub const IDS: &[&str] = &["C13", "C14"];
+pub const IDS: &[&str] = &["C01", "C07", "C13", "C14"];
+
+/// Committed regression replays (/verif/regressions/<ID>-*.json): shrunk failing cases of
+/// defects found earlier; re-run first, bypassing the generators.
+fn regressions(prop: &str) -> (u64, Vec<String>) {
+    let dir = format!("{}/regressions", crate::runner::VERIF_DIR);
+    let mut n = 0;
+    let mut failed = vec![];
+    let mut files: Vec<_> = std::fs::read_dir(&dir)
+        .map(|d| d.filter_map(|e| e.ok()).map(|e| e.path()).collect())
+        .unwrap_or_default();
+    files.sort();
+    for f in files {
+        let name = f.file_name().and_then(|n| n.to_str()).unwrap_or("").to_string();
+        if !name.starts_with(&format!("{}-", prop)) || !name.ends_with(".json") {
+            continue;
+        }
+        n += 1;
+        let path = f.to_string_lossy().to_string();
+        let code = replay(prop, &path);
+        if code == 1 {
+            failed.push(path);
+        }
+    }
+    (n, failed)
+}
 
 pub fn run(prop: &str, tier: Tier) -> i32 {
     let mut ctx = Ctx::new(prop, tier);
+    let (nreg, regfailed) = regressions(prop);
+    ctx.extra.insert("regression_replays_run".into(), serde_json::json!(nreg));
+    ctx.extra.insert("regression_replays_failed".into(), serde_json::json!(regfailed));
+    let reg_fail = !regfailed.is_empty();
     match prop {
+        "C01" => c01::run(&mut ctx, c01::Mode::Index),
+        "C07" => c01::run(&mut ctx, c01::Mode::Category),
         "C13" => c13::run(&mut ctx),
         "C14" => c14::run(&mut ctx),
         _ => {
@@ -17,7 +49,11 @@ pub fn run(prop: &str, tier: Tier) -> i32 {
             return 2;
         }
     }
-    ctx.finish()
+    let code = ctx.finish();
+    if reg_fail && code == 0 {
+        return 1;
+    }
+    code
 }
 
 pub fn replay(prop: &str, path: &str) -> i32 {
@@ -38,6 +74,8 @@ pub fn replay(prop: &str, path: &str) -> i32 {
     let stream = v.get("stream").and_then(|s| s.as_str()).unwrap_or("").to_string();
     let case = v.get("case").cloned().unwrap_or(Value::Null);
     match prop {
+        "C01" => c01::replay(c01::Mode::Index, &stream, path, &case),
+        "C07" => c01::replay(c01::Mode::Category, &stream, path, &case),
         "C13" => c13::replay(&stream, path, &case),
         "C14" => c14::replay(&stream, path, &case),
         _ => {
